@@ -8,7 +8,7 @@ READY = set(os.environ.get("HGX_READY", " ".join("C%02d" % i for i in range(1, 2
 
 CHECKS = {
  # id: (technique, level text, design_ref, note)
- "C01": ("model-based history testing (Hypothesis-generated operation sequences vs. a dict/set reference model, full public observation after every step)",
+ "C01": ("model-based history testing (Hypothesis-generated operation sequences vs. a dict/set reference model, full public observation after every step, or - in half of the histories - after two or more mutations)",
          "Every generated history (<=50 public mutator calls incl. rejected ones, copies, batches) is replayed on a 150-line reference model; all public queries incl. every order/size/up_to filter are compared as multisets after every step. Finds history-dependent faults (stale/duplicated incidence entries, wrong-key tables); establishes nothing beyond the explored histories.",
          "2/C01", "trusted: RefHypergraph model, Hypothesis; unspecified corners are value sets or excluded (listed in evidence.assumptions)"),
  "C02": ("model-based history testing (generated operation sequences vs. a dict reference model keyed by (source set, target set))",
@@ -40,7 +40,7 @@ CHECKS = {
          "2/C10", "trusted: fractions arithmetic; Jaccard thresholds are rationals p/q with q<=6 passed as floats (sound: see DESIGN C10)"),
  "C11": ("differential testing against exhaustive subset enumeration + independent enumeration of isomorphism classes + metamorphic relabelling/insertion-order invariance",
          "For every 3- and 4-subset of nodes the induced pattern of hyperedges (size>=2) is classified by a canonical form computed as the minimum over all node permutations and counted; the library's keys must be in bijection with the independently enumerated 6 / 171 classes and carry the same counts; counts are invariant under label permutation, insertion order and addition of larger hyperedges; directed census: invariance, canonical representatives, positive integer counts.",
-         "2/C11", "trusted: brute-force canonicaliser (permutation minimum); runs_config_model=0 only"),
+         "2/C11", "trusted: brute-force canonicaliser (permutation minimum); runs_config_model=0, plus one clause with one null-model run that reads 'observed' only; two deterministic clauses exercise every connected labelled pattern of orders 3 and 4"),
  "C12": ("differential testing against definitions in exact rational arithmetic",
          "in/out degrees (with filters) and sequences, the signature vector cell by cell with its sum identity and length, and exact/strong/weak reciprocity per size recomputed from their definitions on the size-bounded hyperedge set, in [0,1], 0 for empty sizes, exact<=strong<=weak; generators produce reversed and partially reversed pairs so that the three differ.",
          "2/C12", "trusted: Fraction-based oracle"),
